@@ -254,6 +254,8 @@ class HistoryRun(object):
         self._find("C01", CIRC_ORDER_SIG % "undo", "; ".join(d[:3]), rec)
       elif stale_lookup_only(doc, d):
         self._find("C01", STALE_LOOKUP_SIG % "undo", "; ".join(d[:3]), rec)
+      elif decoded_error_only(d):
+        self._find("C01", DECODED_ERROR_SIG % "undo", "; ".join(d[:3]), rec)
       elif drift:
         self._find("C01", DRIFT_SIG % "undo", "%s; drift at %r" % ("; ".join(d[:2]), drift[:2]), rec)
       else:
@@ -287,6 +289,8 @@ class HistoryRun(object):
           self._find("C03", CIRC_ORDER_SIG % "redo", "; ".join(d2[:3]), rec)
         elif stale_lookup_only(doc, d2):
           self._find("C03", STALE_LOOKUP_SIG % "redo", "; ".join(d2[:3]), rec)
+        elif decoded_error_only(d2):
+          self._find("C03", DECODED_ERROR_SIG % "redo", "; ".join(d2[:3]), rec)
         elif drift_mid and not drift:
           # the undo already left numbers of another numeric type behind (C01's drift finding);
           # whatever the redo then computes differently (e.g. summary rows re-keyed) follows from it
@@ -606,6 +610,25 @@ def empty_table_key_change_only(doc, diffs, actions, type_error=False):
           (not list(doc.engine.tables[t2].row_ids) if not type_error else '"TypeError"' in d.split(" vs ")[0]):
         hit = True
     if not hit:
+      return False
+  return True
+
+
+DECODED_ERROR_SIG = ("%s: a formula that reads an error cell restored from its ENCODING (by undo, redo or load: a decoded "
+                     "RaisedException carries no exception object) reports ['E', 'NoneType'] instead of the original error class")
+
+
+def decoded_error_only(diffs):
+  """Every difference is a cell holding an error on both sides, one of them ['E', 'NoneType']."""
+  import re
+  if not diffs:
+    return False
+  for d in diffs:
+    m = re.match(r"cell \S+: (.*) vs (.*)$", d)
+    if not m:
+      return False
+    a, b = m.group(1), m.group(2)
+    if not ('["E"' in a and '["E"' in b and (('"NoneType"' in a) != ('"NoneType"' in b))):
       return False
   return True
 
